@@ -135,7 +135,13 @@ Step ==
             \* poisons the register it is stored in (events reading it are skipped)
             /\ live' = (j \in {"ok", "oor"})
             /\ mode' = mode /\ mc' = mc
-            /\ regs' = IF j = "ok" /\ HasDest(ev) /\ (ev.op = "Lit" \/ ev.res.k # "e")
+            /\ regs' = IF j = "ok" /\ ev.op = "Alloc"
+                       \* the first Len(zs) portions (judged by AllocOK) are stored for later operations
+                       THEN [r \in 1..K |-> IF \E k \in DOMAIN ev.zs : ev.zs[k] = r
+                                             THEN Qty(regs[ev.x].u, <<ev.ps[CHOOSE k \in DOMAIN ev.zs : ev.zs[k] = r][1],
+                                                                      ev.ps[CHOOSE k \in DOMAIN ev.zs : ev.zs[k] = r][2]>>)
+                                             ELSE regs[r]]
+                       ELSE IF j = "ok" /\ HasDest(ev) /\ (ev.op = "Lit" \/ ev.res.k # "e")
                        THEN [regs EXCEPT ![ev.z] = NewReg(ev)]
                        ELSE IF j = "oor" /\ HasDest(ev) /\ ev.res.k # "e"
                        THEN [regs EXCEPT ![ev.z] = IF ev.res.k \in {"q", "n"} THEN OORV ELSE EmptyV]
